@@ -128,3 +128,37 @@ Definition shadow_free (tm : tmap) (t : ty) (f : N) : bool :=
 
 (* definitions are distinct objects (pointer identity in repeatTypeList) *)
 Definition wf_tm (tm : tmap) : Prop := NoDup (map d_id tm).
+
+(* ---------- member prefixes of any length: what `v<path>` denotes ---------- *)
+(* One step of a prefix is `.k` (Some k) or `[i]` (None).  `.k` selects the type of A ---@field k line of a class
+   declaration of the closure, read in the file of that declaration (several declarations of k: any of them);
+   when the closure has no member k, and for `[i]`, the step goes to the element type (array element first, else
+   table value), read in the same place; no element type: the prefix denotes nothing. *)
+Definition no_member (tm : tmap) (t : ty) (key : option name) : Prop :=
+  match key with Some k => forall loc, ~ define_spec tm t k loc | None => True end.
+
+Inductive path_rel (tm : tmap) : sym -> list (option name) -> option sym -> Prop :=
+| PR_nil s : path_rel tm s [] (Some s)
+| PR_member t f l k d fl rest r :
+    reachable_def tm t d -> In fl (class_fields d) -> f_name fl = k ->
+    path_rel tm (f_ty fl, d_file d, d_line d) rest r ->
+    path_rel tm (t, f, l) (Some k :: rest) r
+| PR_index t f l key e rest r :
+    no_member tm t key -> index_exec tm t f = Some e ->
+    path_rel tm (e, f, l) rest r ->
+    path_rel tm (t, f, l) (key :: rest) r
+| PR_stuck t f l key rest :
+    no_member tm t key -> index_exec tm t f = None ->
+    path_rel tm (t, f, l) (key :: rest) None.
+
+(* executable version of the member step of path_rel: every (field type, file, line) the step `.k` may select *)
+Definition member_step_spec (tm : tmap) (t : ty) (k : name) (s : sym) : Prop :=
+  exists d fl, reachable_def tm t d /\ In fl (class_fields d) /\ f_name fl = k /\ s = (f_ty fl, d_file d, d_line d).
+
+Definition member_step_exec (tm : tmap) (t : ty) (k : name) : option (list sym) :=
+  match reach_exec tm t with
+  | Some R => Some (flat_map (fun n => flat_map (fun d =>
+                      map (fun fl => (f_ty fl, d_file d, d_line d)) (filter (fun fl => f_name fl =? k) (class_fields d)))
+                      (sdefs tm n)) R)
+  | None => None
+  end.
